@@ -35,7 +35,7 @@ import driver
 import hlane_replay
 
 PROPERTIES_FILE = "Properties/Properties_C03_hlane.v"
-COQ_DEPS = ["Proofs/HLane_progress.vo", "Proofs/HLaneR_proofs.vo"]
+COQ_DEPS = ["Proofs/HLane_progress.vo", "Proofs/HLane_measure.vo", "Proofs/HLaneR_proofs.vo"]
 GEN_MODULES = ["Gen_dqstate"]
 LEVEL = "proof"
 TRUSTED = [
